@@ -169,3 +169,10 @@ prop("C10",
      rule="Non-trivial = a default of list / input-object / enum kind, an interface with >= 2 implementers, or a schema extended by AppendType; distinct by case hash.",
      assumptions=["the set of types a schema must list = model types + built-in scalars it mentions + String, Boolean + the eight introspection types"],
      runs=[dict(test="^TestC10$", quick=dict(checks=2000), thorough=dict(checks=20000, shards=16, timeout=3000))])
+
+prop("C11",
+     level_text="generated-input search (rapid): valid schema configurations built through the library's constructors with 0-2 injected malformations out of 45 operators (duplicate / invalid / reserved names on every kind of named thing, empty field / value / member sets, nil in every pointer-typed slot incl. typed-nil roots, interface fields missing / of wrong or contravariant type / with missing, differing or extra required arguments, NonNull(NonNull), List(nil), output types in input positions and vice versa, missing query root, repeated union members, abstract types nobody can resolve, malformed directives) and AppendType histories; oracle = no panic from any constructor / NewSchema / AppendType, and err == nil implies an independent consistency checker over the public accessors, and appended == up-front",
+     note="the statement is one-directional: rejecting a valid configuration is not an alarm (valid configurations are always exercised: every fifth case is unmutated and must be accepted); names with the reserved __ prefix are not counted as illegal (the ported edition only warns)",
+     technique="property-based testing (rapid): fault injection into configurations, validity predicate over the result",
+     rule="consistency = unique legal names, type map closed under field / argument / input-field / interface / member / root references and containing the 8 introspection types, output vs input positions, declared interfaces really implemented (own covariance relation, identical argument types, no extra required arguments), PossibleTypes = declared implementers / members each once, IsPossibleType agrees. Non-trivial = a mutated configuration or an append history; distinct by case hash.",
+     runs=[dict(test="^TestC11$", quick=dict(checks=20000), thorough=dict(checks=200000, shards=16, timeout=3000))])
